@@ -35,7 +35,7 @@ func init() {
 		Run: run,
 		Floors: func(t string) map[string]int64 {
 			return map[string]int64{"api.struct": 100, "api.fields": 100, "kind.Point": 8, "kind.MultiPoint": 8, "kind.LineString": 8, "kind.MultiLineString": 8, "kind.Polygon": 8, "kind.*Bounds": 8,
-				"records.compared": 3000, "string.last_column": 50, "string.with_edge_blanks": 200, "ring.unclosed": 200, "ring.unclosed_by_a_hair": 100, "file.empty": 3, "column.string": 100, "column.int": 100, "column.float": 100, "string.at_field_width": 20, "schema.crossed_tags_and_names": 20, "decode.alternating_record_types": 30, "box.degenerate": 50, "schema.eleven_byte_names_sharing_ten": 20, "file.more_than_1000_records": 1}
+				"records.compared": 3000, "string.last_column": 50, "string.with_edge_blanks": 200, "ring.unclosed": 200, "ring.unclosed_by_a_hair": 100, "file.empty": 3, "column.string": 100, "column.int": 100, "column.float": 100, "string.at_field_width": 20, "schema.crossed_tags_and_names": 20, "decode.alternating_record_types": 30, "box.degenerate": 50, "schema.eleven_byte_names_sharing_ten": 20, "schema.names_longer_than_the_dbf_field": 20, "file.more_than_1000_records": 1}
 		},
 	})
 }
@@ -277,6 +277,24 @@ func genColumns(r *gen.R) []column {
 		}
 		cols = append(cols, col)
 	}
+	if r.Chance(0.1) {
+		// names longer than the 11 bytes a DBF field name holds (distinct within those 11 bytes):
+		// the file stores the shortened name, the same struct / the same requested name must find it
+		for i := range cols {
+			if i >= 9 {
+				break
+			}
+			nm := string(rune('A'+i)) + "ttribute" + string(rune('a'+r.Intn(26))) + "WithALongName"[:r.IntRange(3, 13)]
+			cols[i].encName, cols[i].tag, cols[i].dbf = nm, "", nm
+			cols[i].decName, cols[i].decTag = nm, ""
+			if r.Chance(0.3) {
+				cols[i].tag, cols[i].decTag = strings.ToLower(nm)+"x", strings.ToUpper(nm)+"X"
+				cols[i].dbf = cols[i].tag
+			}
+		}
+		longerNames = true
+		return cols
+	}
 	if len(cols) >= 2 && r.Chance(0.12) {
 		// names of the full 11 bytes a DBF field name can hold that share their first 10 bytes
 		stem := ""
@@ -313,7 +331,7 @@ func genColumns(r *gen.R) []column {
 }
 
 // crossed / longNames report what the last genColumns call produced.
-var crossed, longNames bool
+var crossed, longNames, longerNames bool
 
 func goType(kind string) reflect.Type {
 	switch kind {
@@ -357,10 +375,13 @@ func run(c *core.Ctx, idx int) {
 	r := c.R
 	kind := kinds[r.Intn(len(kinds))]
 	structAPI := r.Bool()
-	crossed, longNames = false, false
+	crossed, longNames, longerNames = false, false, false
 	cols := genColumns(r)
 	if longNames {
 		c.Count("schema.eleven_byte_names_sharing_ten")
+	}
+	if longerNames {
+		c.Count("schema.names_longer_than_the_dbf_field")
 	}
 	if crossed {
 		c.Count("schema.crossed_tags_and_names")
